@@ -15,6 +15,9 @@ func init() {
 			ruleEmitLemmas(c)
 			ruleExactConsumption(c)
 			ruleConsumed(c, decodeBound(c.P), nil)
+			ruleVarSize(c)
+			// a repeated-form key/value/element inside a map or slice has no frame of its own
+			ruleRepeatedNesting(c)
 		},
 	})
 }
